@@ -1,6 +1,7 @@
 import SSVerif.Proofs.AlignLevel
 import SSVerif.Proofs.AlignStepWF
 import SSVerif.Proofs.AlignRun
+import SSVerif.Proofs.AlignOpt
 import SSVerif.Generated.SearchConsts
 /-!
 # C04 — Forced alignment is a consistent words > phones > states hierarchy
@@ -230,10 +231,10 @@ theorem C04_scores_add_up (D : Dict) (words : List Entry) (tokens : List (List T
 
 /-- **C04, the checker is the predicate.**  `alignOKB` (run by the driver on what `decoder_alignment` returned
 through the iterator API) returns `true` exactly when the hierarchy predicate `AlignOK` holds. -/
-theorem C04_alignOKB_iff (pron : Int → List Int) (nEmit : Nat) (senOK : Int → Nat → Int → Bool)
+theorem C04_alignOKB_iff (pron : Int → List Int) (nEmit : Nat) (senOK : Int → Nat → Int → Bool) (expSen : List (List Int))
     (fp : List Seg) (T : Int) (t : List WNode) :
-    alignOKB pron nEmit senOK fp T t = true ↔ AlignOK pron nEmit senOK fp T t :=
-  alignOKB_iff pron nEmit senOK fp T t
+    alignOKB pron nEmit senOK expSen fp T t = true ↔ AlignOK pron nEmit senOK expSen fp T t :=
+  alignOKB_iff pron nEmit senOK expSen fp T t
 
 /-- **C04, `alignStep_WFTokens`.**  For every number of phones, every window arrays `sf`/`ef`, every sequence of
 per-frame senone scores (any length `T` below 16 140 frames): if the transition matrices have no skip transitions
@@ -314,6 +315,62 @@ theorem C04_model_run_hierarchy (D : Dict) (words : List Entry) (tps : Array (Ar
   subst e2; subst e3
   exact ⟨_, f1, c1, c2, c3, pa1, pa2, i1, i2, s3⟩
 
+/-- **C04, `word_score_is_acoustic_part` — partial (the alignment-side half).**  Viterbi optimality of the aligner's
+constrained search (`Step.run`, renormalisation branch included) for every number of phones, windows and frames
+(`T < 16 140`), with skip-free matrices and in-range data: the final out-score is an upper bound of the score of
+**every** admissible complete state path — a path that starts in state 0 at frame 0, moves by at most one state per
+frame, enters a phone not before its `sf`, occupies every frame inside the `[sf, ef)` window of its phone and leaves
+the last state after frame `T-1`; its score is the sum of `-senone score` of the occupied states and `-transition
+cost` of the moves (`Step.PathTo`, `Step.FullPath`) — and, when alive, it **is** the score of such a path.
+Together with `C04_scores_add_up` (`Σ word scores = final out-score`, each state score a difference of cumulative
+path scores) the aligned scores are those of a best window-constrained path over the same senone scores.
+**Not proved** (the rest of the clause): that each single word's share is the best score over that word's frames
+(an exchange argument on top of this theorem: the windows pin the word boundaries, so the total is a sum of
+independent per-word maxima) and the identification with the first-pass acoustic score, which needs the first pass
+to be optimal inside the word boundaries with the same cross-word triphones (C02's network model; false for the two
+known-finding classes).  That equality is evaluated on the implementation under `compallsen=yes`. -/
+theorem C04_word_score_is_acoustic_part_partial (tps : Array (Array Int)) (sf ef : Array Int) (frames : List (Array Int))
+    (hok : ∀ sen ∈ frames, Step.FrameOK tps sen) (hsf : sf.getD 0 0 ≤ 0)
+    (hmono : ∀ i, i + 1 < sf.size → ef.getD i 0 ≤ ef.getD (i + 1) 0)
+    (hT : (frames.length : Int) * 33022 ≤ 533000000)
+    (hend : (frames.length : Int) ≤ ef.getD (sf.size - 1) 0) :
+    (∀ sc, Step.FullPath tps sf ef (fun g => frames.getD g #[]) sf.size frames.length sc →
+      sc ≤ (Step.run tps sf ef frames).2.1.score) ∧
+    ((Step.run tps sf ef frames).2.1.score > Step.worst →
+      Step.FullPath tps sf ef (fun g => frames.getD g #[]) sf.size frames.length (Step.run tps sf ef frames).2.1.score) :=
+  Step.run_optimal tps sf ef frames hok hsf hmono hT hend
+
+/-- **C04, model runs: the word scores add up to the best path score.**  Under the hypotheses of
+`C04_model_run_hierarchy`, the sum of the aligned word scores is the maximum of the scores of the admissible complete
+paths through the windows of the populated alignment. -/
+theorem C04_model_run_scores_optimal_partial (D : Dict) (words : List Entry) (tps : Array (Array Int))
+    (frames : List (Array Int)) (h3 : D.nEmit = 3) (hP : ∀ w ∈ words, D.pron w.id ≠ [])
+    (hfp : Contig words 0 frames.length) (hok : ∀ sen ∈ frames, Step.FrameOK tps sen)
+    (hT : (frames.length : Int) * 33022 ≤ 533000000)
+    (halive : (Step.run tps ((populate D words).phones.map sfOf).toArray ((populate D words).phones.map efOf).toArray
+      frames).2.1.score > Step.worst) :
+    let sf := ((populate D words).phones.map sfOf).toArray
+    let ef := ((populate D words).phones.map efOf).toArray
+    let r := Step.run tps sf ef frames
+    ∃ a', finish r.1 frames.length r.2.1 (populate D words) = some a' ∧
+      (∀ sc, Step.FullPath tps sf ef (fun g => frames.getD g #[]) sf.size frames.length sc → sc ≤ sumScore a'.words) ∧
+      Step.FullPath tps sf ef (fun g => frames.getD g #[]) sf.size frames.length (sumScore a'.words) := by
+  intro sf ef r
+  obtain ⟨a', f1, _, _, _, _, _, _, _, hsum⟩ := C04_model_run_hierarchy D words tps frames h3 hP hfp hok hT halive
+  obtain ⟨_, _, _, _, _, p6, _, _, _, _, _⟩ := C04_populate_structure D words
+  have hposW : ∀ n ∈ words.map (plen D), 0 < n := by
+    intro n hn
+    obtain ⟨w, hw, rfl⟩ := List.mem_map.1 hn
+    exact List.length_pos_iff.2 (hP w hw)
+  obtain ⟨w1, w2, w3⟩ := populated_windows_ok words (words.map (plen D)) (populate D words).phones frames.length hfp
+    (by simp) hposW p6
+  have hsz : sf.size = (populate D words).phones.length := by simp [sf]
+  obtain ⟨o1, o2⟩ := C04_word_score_is_acoustic_part_partial tps sf ef frames hok w1 (by rw [hsz]; exact w2) hT
+    (by rw [hsz]; exact w3)
+  refine ⟨a', f1, ?_, ?_⟩
+  · intro sc h; rw [hsum]; exact o1 sc h
+  · rw [hsum]; exact o2 halive
+
 /-- **C04 (growth), `alignStep_WFTokens` — partial.**  One frame of the constrained Viterbi
 (`state_align_search_step` for 3-state HMMs, model `Step.step`): if the between-frames invariant `Step.Inv` holds
 (it does at the start, `C04_alignStep_inv_start`), the transition matrices have no skip transitions (`NoSkip3`), the
@@ -321,9 +378,8 @@ data are in the ranges of the C types and no renormalisation is due, then every 
 stack for state `k` is `-1`, `k` or `k-1` (`TokLocs`: no token skips a state or goes backwards), the token row is
 exactly the concatenation of `rowOf` over the HMMs, and the invariant holds again.  By induction every token of
 every frame is local, so any backward walk that meets no `-1` is monotone without skipped states.
-**Not proved** (the rest of `alignStep_WFTokens`): that the walk from the final state meets no `-1` and that every
-frame lies inside the activity window of its phone — both need reasoning about which paths survive; they are
-evaluated (`wfTokens`) on every token stack dumped from the real search instead. -/
+(Superseded by `C04_alignStep_WFTokens`, which proves the whole of `wfTokens` for complete runs; this per-frame
+statement is kept because it needs no bound on the number of frames.) -/
 theorem C04_alignStep_tokens_local_partial (tps : Array (Array Int)) (sf ef : Array Int) (sen : Array Int) (f : Int)
     (s : Step.Search) (hI : Step.Inv s.hmms) (hok : Step.FrameOK tps sen) (hnr : ¬ (s.best - 0x300000 < Step.worst)) :
     (∀ i h, (Step.advance tps sf ef sen f s.hmms)[i]? = some h → Step.TokLocs i h) ∧
@@ -384,8 +440,10 @@ def exTree (d : Int) : List WNode :=
       phones := [ { e := { start := 5, duration := 3, score := -30, parent := 1, child := 2, id := 7 },
                     states := [{ start := 5, duration := 3, score := -30, parent := 2, child := 0, id := 1070 }] } ] } ]
 
-example : alignOKB exDict.pron 1 (fun _ _ _ => true) [⟨0, 0, 4⟩, ⟨1, 5, 7⟩] 8 (exTree 2) = true := by decide
-example : alignOKB exDict.pron 1 (fun _ _ _ => true) [⟨0, 0, 4⟩, ⟨1, 5, 7⟩] 8 (exTree 1) = false := by decide
+example : alignOKB exDict.pron 1 (fun _ _ _ => true) [[2050], [4060], [1070]] [⟨0, 0, 4⟩, ⟨1, 5, 7⟩] 8 (exTree 2) = true := by decide
+example : alignOKB exDict.pron 1 (fun _ _ _ => true) [[2050], [4060], [1070]] [⟨0, 0, 4⟩, ⟨1, 5, 7⟩] 8 (exTree 1) = false := by decide
+/-- a state list that is not the one of the phone in its context is rejected -/
+example : alignOKB exDict.pron 1 (fun _ _ _ => true) [[2050], [4061], [1070]] [⟨0, 0, 4⟩, ⟨1, 5, 7⟩] 8 (exTree 2) = false := by decide
 
 
 /-- non-vacuity of the step model and of `wfTokens` on it: two phones with a no-skip matrix, windows `[0,3)` and
@@ -406,7 +464,7 @@ theorem exTp_range : ∀ n : Nat, 0 ≤ exTp.getD n 255 ∧ exTp.getD n 255 ≤ 
   | 0 | 1 | 2 | 3 | 4 | 5 | 6 | 7 | 8 | 9 | 10 | 11 => by decide
   | n + 12 => by rw [exGetD_ge exTp (n + 12) 255 (by simp [exTp])]; decide
 
-example : (∀ sen ∈ List.replicate 7 (#[5, 6, 7, 8, 9, 10] : Array Int), Step.FrameOK #[exTp, exTp] sen) ∧
+theorem exRun_hyps : (∀ sen ∈ List.replicate 7 (#[5, 6, 7, 8, 9, 10] : Array Int), Step.FrameOK #[exTp, exTp] sen) ∧
     (#[0, 3] : Array Int).getD 0 0 ≤ 0 ∧
     (∀ i, i + 1 < (#[0, 3] : Array Int).size → (#[3, 7] : Array Int).getD i 0 ≤ (#[3, 7] : Array Int).getD (i + 1) 0) ∧
     (((List.replicate 7 (#[5, 6, 7, 8, 9, 10] : Array Int)).length : Nat) : Int) * 33022 ≤ 533000000 ∧
@@ -441,5 +499,18 @@ example : (∀ sen ∈ List.replicate 7 (#[5, 6, 7, 8, 9, 10] : Array Int), Step
   · intro i hi
     have : i = 0 := by simp at hi; omega
     subst this; decide
+
+/-- non-vacuity of `C04_word_score_is_acoustic_part_partial`: for that run an admissible complete path with the final
+score -183 exists, and no admissible complete path scores more -/
+example : Step.FullPath #[exTp, exTp] #[0, 3] #[3, 7] (fun g => (List.replicate 7 (#[5, 6, 7, 8, 9, 10] : Array Int)).getD g #[])
+    2 7 (-183) ∧
+    ∀ sc, Step.FullPath #[exTp, exTp] #[0, 3] #[3, 7]
+      (fun g => (List.replicate 7 (#[5, 6, 7, 8, 9, 10] : Array Int)).getD g #[]) 2 7 sc → sc ≤ -183 := by
+  obtain ⟨h1, h2, h3, h4, h5, h6⟩ := exRun_hyps
+  obtain ⟨o1, o2⟩ := C04_word_score_is_acoustic_part_partial #[exTp, exTp] #[0, 3] #[3, 7]
+    (List.replicate 7 #[5, 6, 7, 8, 9, 10]) h1 h2 h3 h4 h5
+  have e : (Step.run #[exTp, exTp] #[0, 3] #[3, 7] (List.replicate 7 #[5, 6, 7, 8, 9, 10])).2.1.score = -183 := by decide
+  rw [e] at o1 o2
+  exact ⟨o2 (by decide), o1⟩
 
 end SSVerif.Align
